@@ -228,7 +228,10 @@ class RenderContext:
                 return obj["size"]
             except (KeyError, IndexError, TypeError):
                 if isinstance(obj, Sized):
-                    return len(obj)
+                    try:
+                        return len(obj)
+                    except OverflowError:  # a range longer than sys.maxsize
+                        pass
                 raise
         if key == "first":
             try:
@@ -265,7 +268,10 @@ class RenderContext:
                 return await _get_item(obj, "size")
             except (KeyError, IndexError, TypeError):
                 if isinstance(obj, Sized):
-                    return len(obj)
+                    try:
+                        return len(obj)
+                    except OverflowError:  # a range longer than sys.maxsize
+                        pass
                 raise
         if key == "first":
             try:
